@@ -101,32 +101,11 @@ Theorem c12_trait : forall v attr h t items,
 Proof. exact c12_trait_explicit. Qed.
 Print Assumptions c12_trait.
 
-(** The predicate the checker evaluates holds of every model expansion — except on one degenerate kind of
-    input ([c12_degenerate]: trait with [async_trait], delegation-target and selector trait given the same
-    name), where [view_C12] as defined is false ([c12_view_not_total]). *)
-Theorem c12_view_sound_partial : forall v attr i items,
-  expand_items v attr i = Ok items -> ~ c12_degenerate attr i -> good (view_C12 (mkCtx v attr i) items).
-Proof. exact c12_view_partial. Qed.
-Print Assumptions c12_view_sound_partial.
-
-Theorem c12_view_sound_nontrait : forall v attr i items,
-  expand_items v attr i = Ok items -> (forall h t, i <> InTrait h t) -> good (view_C12 (mkCtx v attr i) items).
-Proof. exact c12_view_nontrait. Qed.
-Print Assumptions c12_view_sound_nontrait.
-
-Theorem c12_view_sound_trait : forall v attr h t items,
-  expand_items v attr (InTrait h t) = Ok items ->
-  (forall a0 n, parse_trait_attr attr = Ok a0 -> ta_impl_trait a0 = Some n -> ta_delegate a0 = Some (ByTrait n) ->
-                contains_async_trait (h_attrs h) = false) ->
-  good (view_C12 (mkCtx v attr (InTrait h t)) items).
-Proof. exact c12_view_trait. Qed.
-Print Assumptions c12_view_sound_trait.
-
-Theorem c12_view_not_total :
-  exists items, expand_items VEntrait c12_cex_attr c12_cex_input = Ok items /\
-                ~ good (view_C12 (mkCtx VEntrait c12_cex_attr c12_cex_input) items).
-Proof. exact c12_view_counterexample. Qed.
-Print Assumptions c12_view_not_total.
+(** The predicate the checker evaluates on the implementation's output holds of every model expansion. *)
+Theorem c12_view_sound : forall v attr i items,
+  expand_items v attr i = Ok items -> good (view_C12 (mkCtx v attr i) items).
+Proof. exact c12_view. Qed.
+Print Assumptions c12_view_sound.
 
 Example c12_nonvacuous :
   forallb (nonvacuous view_C12) [ex_fn; ex_mod; ex_trait; ex_impl_dyn] = true.
